@@ -89,6 +89,11 @@ CHECKS = {
           "Two clones on the owner's endpoint (shared cache) and two independently sent handles on a remote endpoint run scripts of <= 3 operations over {read and hold, write+commit, write+drop}, cold and warm caches; a write shifted by k = 0..23/39 steps against a read on another handle, each with a further deviation; loss of the connection of an endpoint holding a read or write guard. Oracle: no write guard interval overlaps any other guard, write guards obtain the latest commit, reads return a value current at some instant of the call, commits are never lost, dropped write guards change nothing, and with all guards released every request completes (no deadlock).",
           "Guard intervals measured with the scheduler step counter; a write guard ends when commit() consumes it. Holder-loss cases judge the surviving endpoint only. Quick tier is time-capped (reported).",
           "DESIGN.md 4/C17"),
+  "C20": ("model_checking",
+          "bounded exhaustive enumeration of handle travel paths x accessors x drop orders on a 3-endpoint triangle and of lazy value/blob sizes x hops x cut frames on a 4-endpoint chain, against a small reference model; deviation-bounded schedule exploration of core cases",
+          "Handles: every path over <= 3 connections of the triangle A-B, B-C, C-A (incl. returning over the other connection and a second round trip), as_ref / as_mut / cast+as_ref / into_inner at every stop, clones kept, sent home individually, dropped before/after the original, provider kept or dropped. Oracle: the value (with identity 4242) is obtainable only at its origin, at its original type, while not taken; every other access is an error, never another value; a handle or clone coming home over the connection it left on works; the drop counter of the stored value becomes 1 exactly once, after the last handle/provider is gone and not earlier. Lazy/LazyBlob: sizes 0/1/chunk/buffer+1/3*buffer/1000 over 1..3 connections, fetched once or twice concurrently, chunked relaying, provider dropped, connection cut after every frame on every link: a fetch returns exactly what was provided or an error, never a shorter value.",
+          "Lazy<Vec<u8>> above max_data_size involves helper threads (input-exhaustive only, labelled).",
+          "DESIGN.md 4/C20"),
 }
 
 NOT_YET = "check not built yet in this session (design in DESIGN.md section 4); not claimed"
